@@ -168,7 +168,26 @@ RECYCLE_TREE_CONFLICT = [
     ("register_tree", ("step", "B"), "d/e/"),
     ("define_step", ("step", "./plan.py"), "A", (), (), (), (), "DEFAULT"),
 ]
-FIXED_TRACES = {"self-definition": SELF_DEFINITION, "hold-outside-protocol": HOLD_OUTSIDE_PROTOCOL,
+# register_static_tree over attached STATIC files: of another creator (rejected, nothing is handed
+# over), then of the registering step itself (handed over), then a build product (rejected)
+TREE_HANDOVER = [
+    ("declare_static", ("root", ""), ("plan.py",)),
+    ("update_hashes", "CONFIRMED", (("plan.py", 1),)),
+    ("define_step", ("root", ""), "./plan.py", ("plan.py",), (), (), (), "PLAN"),
+    ("dispatch", "./plan.py"),
+    ("reset_for_rerun", "./plan.py"),
+    ("declare_static", ("step", "./plan.py"), ("d/g0",)),
+    ("define_step", ("step", "./plan.py"), "A", (), (), ("t/x",), (), "DEFAULT"),
+    ("exec_end", "./plan.py", (), "SUCCEEDED", (), True, False),
+    ("dispatch", "A"),
+    ("reset_for_rerun", "A"),
+    ("register_tree", ("step", "A"), "d/"),
+    ("declare_static", ("step", "A"), ("d/e/h0",)),
+    ("register_tree", ("step", "A"), "d/e/"),
+    ("register_tree", ("step", "A"), "t/"),
+    ("declare_static", ("step", "A"), ("d/e/h0", "d/g1")),
+]
+FIXED_TRACES = {"tree-handover": TREE_HANDOVER, "self-definition": SELF_DEFINITION, "hold-outside-protocol": HOLD_OUTSIDE_PROTOCOL,
                 "define-own-creator": DEFINE_OWN_CREATOR, "recycle-tree-conflict": RECYCLE_TREE_CONFLICT}
 
 STATIC_STATES = (12, 13, 14)
